@@ -138,6 +138,28 @@ def augment_boundaries(lines, rng, per_op=48):
                 bigpos.append(i)
         if not bigpos or len(bigpos) > 3:
             continue
+        # deterministic part: ops with ONE big operand get every boundary value (both signs for BigInt) under up to six
+        # templates with distinct other arguments (smallest scalar arguments first: degree 1, shift 0, radix 2 …), so a
+        # special case at one boundary value for one small argument (`(-2^127).nth_root(1)`) is not a matter of luck
+        if len(bigpos) == 1:
+            i = bigpos[0]
+            seen_other, tmpls = set(), []
+            def okey(t_):
+                o = tuple(x for j, x in enumerate(t_) if j != i)
+                return (sum(len(x) for x in o), o)
+            for t_ in sorted(samples, key=okey):
+                o = tuple(x for j, x in enumerate(t_) if j != i)
+                if o not in seen_other:
+                    seen_other.add(o); tmpls.append(t_)
+                if len(tmpls) >= 6:
+                    break
+            is_signed = any(s_[i][:1] in "+-" or s_[i] == "0." for s_ in samples)   # by the column, not the op prefix
+            for t_ in tmpls:
+                for v in BOUNDARY:
+                    for sg in ((1, -1) if is_signed and v else (1,)):
+                        t2 = list(t_)
+                        t2[i] = wi(sg * v) if is_signed else wu(v)
+                        out.append(" ".join(t2))
         tmpl = samples[rng.randrange(len(samples))]
         cnt = 0
         tries = 0
